@@ -22,6 +22,8 @@ PKG_NAMES = [
     "Foo__X__DEFAULT", "Foo_X_DEFAULT",
     "GetFileDescriptorForA", "ThriftGoUnusedProtection",
 ]
+PKG_NAMES_MEDIUM = ["foo", "Foo", "foo_", "new_foo", "NewFoo", "foo_args", "FooClient", "NewFooClient", "NewFooProcessor",
+                    "FooPtr", "FooFromString", "Foo__A", "foo_bar_args", "Foo__X__DEFAULT", "GetFileDescriptorForA"]
 PKG_NAMES_SMALL = ["foo", "Foo", "foo_", "new_foo", "NewFoo", "FooClient", "FooPtr", "Foo__A", "foo_bar_args",
                    "Foo__X__DEFAULT"]
 FIELD_NAMES = [
@@ -91,30 +93,34 @@ def identify_many(ctx, harness, opts, names, tag):
 
 
 def alphabets(small=False):
+    if small == "medium":
+        return dict(pkg=PKG_NAMES_MEDIUM, field=FIELD_NAMES, param=PARAM_NAMES, fn=FN_NAMES)
     return dict(pkg=PKG_NAMES_SMALL if small else PKG_NAMES,
                 field=FIELD_NAMES_SMALL if small else FIELD_NAMES,
                 param=PARAM_NAMES_SMALL if small else PARAM_NAMES,
                 fn=FN_NAMES)
 
 
-def build_tables(ctx, harness, style, featname, small=False):
-    """naming_tables.json for one (naming profile, feature profile)."""
-    al = alphabets(small)
+def all_raw():
     raw = []
-    for n in al["pkg"] + al["field"] + al["param"] + al["fn"] + FIXED:
+    for n in PKG_NAMES + FIELD_NAMES + PARAM_NAMES + FN_NAMES + FIXED:
         if n not in raw:
             raw.append(n)
+    return raw
+
+
+def style_tables(ctx, harness, style, extra_opts, raw):
+    """tables of one naming profile from the real code"""
     idx = {n: i + 1 for i, n in enumerate(raw)}
-    fp = FEATS[featname]
-    opts = STYLES[style] + fp["opts"]
-    tag = "%s-%s%s" % (style, featname, "-s" if small else "")
-    svc_names = al["pkg"] + [HELPER]
-    r1 = identify_many(ctx, harness, opts, raw + ["$%s_args" % f for f in al["fn"]] + ["$%s_result" % f for f in al["fn"]],
+    opts = STYLES[style] + list(extra_opts)
+    tag = style + ("-" + "-".join(extra_opts) if extra_opts else "")
+    svc_names = PKG_NAMES + [HELPER]
+    r1 = identify_many(ctx, harness, opts, raw + ["$%s_args" % f for f in FN_NAMES] + ["$%s_result" % f for f in FN_NAMES],
                        tag + "-1")
     n1 = r1["names"]
     an = {}
     for s in svc_names:
-        for f in al["fn"]:
+        for f in FN_NAMES:
             an[(s, f, "args")] = s + n1["$%s_args" % f]["id"]
             an[(s, f, "res")] = s + n1["$%s_result" % f]["id"]
     r2 = identify_many(ctx, harness, opts, ["$" + v for v in an.values()], tag + "-2")
@@ -124,14 +130,11 @@ def build_tables(ctx, harness, style, featname, small=False):
     def mat(kind, ident):
         m = [["" for _ in range(N)] for _ in range(N)]
         for s in svc_names:
-            for f in al["fn"]:
+            for f in FN_NAMES:
                 v = an[(s, f, kind)]
                 m[idx[s] - 1][idx[f] - 1] = n2["$" + v]["id"] if ident else v
         return m
-    feat = dict(FEAT0)
-    feat.update(fp.get("feat", {}))
-    tbl = {
-        "raw": raw,
+    return {
         "ident": [n1[n]["id"] for n in raw],
         "lower": [n1[n]["lower"] for n in raw],
         "pfxNew": [n1[n]["pfxNew"] for n in raw],
@@ -140,32 +143,43 @@ def build_tables(ctx, harness, style, featname, small=False):
         "argsAn": mat("args", False), "argsId": mat("args", True),
         "resAn": mat("res", False), "resId": mat("res", True),
         "compat": bool(r1["compat"]),
-        "keywords": KEYWORDS,
-        "feat": feat,
-        "idlName": IDL_BASE, "idlCamel": camel(IDL_BASE),
-        "helper": HELPER,
-        "pkgNames": [idx[n] for n in al["pkg"]],
-        "fieldNames": [idx[n] for n in al["field"]],
-        "paramNames": [idx[n] for n in al["param"]],
-        "fnNames": [idx[n] for n in al["fn"]],
     }
-    return tbl
+
+
+def build_tables(ctx, harness, plan):
+    """naming_tables.json for a list of plan entries (style, feature profile, family, K, small alphabet?)"""
+    raw = all_raw()
+    idx = {n: i + 1 for i, n in enumerate(raw)}
+    styles = []
+    style_idx = {}
+    entries = []
+    for (style, featname, family, k, small) in plan:
+        fp = FEATS[featname]
+        # the feature options do not influence Identify except compatible_names, which is a style of its own
+        if style not in style_idx:
+            styles.append(style_tables(ctx, harness, style, [], raw))
+            style_idx[style] = len(styles)
+        al = alphabets(small)
+        feat = dict(FEAT0)
+        feat.update(fp.get("feat", {}))
+        entries.append({"style": style_idx[style], "feat": feat, "family": family, "k": k,
+                        "pkgNames": [idx[n] for n in al["pkg"]], "fieldNames": [idx[n] for n in al["field"]],
+                        "paramNames": [idx[n] for n in al["param"]], "fnNames": [idx[n] for n in al["fn"]]})
+    return {"raw": raw, "styles": styles, "plan": entries, "keywords": KEYWORDS, "idlName": IDL_BASE,
+            "idlCamel": camel(IDL_BASE), "helper": HELPER}
 
 
 CFG = """SPECIFICATION Spec
 CONSTANTS
-  Family = "%(family)s"
-  K = %(k)d
   MaxProbe = 6
 INVARIANTS GlobalsConsistent RefIntegrity DirectNamesDistinct Emit
 CHECK_DEADLOCK FALSE
 """
 
 
-def run_model(ctx, tbl, family, k, label, coverage=False):
-    r = ctx.tlc("Naming", "Naming", "gen.cfg",
-                files={"gen.cfg": CFG % dict(family=family, k=k), "naming_tables.json": json.dumps(tbl)},
-                timeout=3000, label=label, coverage=coverage)
+def run_model(ctx, tbl, label, coverage=False):
+    r = ctx.tlc("Naming", "Naming", "gen.cfg", files={"gen.cfg": CFG, "naming_tables.json": json.dumps(tbl)},
+                timeout=6000, label=label, coverage=coverage)
     cases = ctx.tlc_cases(r)
     return r, cases
 
